@@ -399,8 +399,10 @@ class tree:
             elif x.attr == "package":
                 pkg_restrict.add(x.restriction)
 
+        # wrappers such as restriction.Negate have no negate attribute (and
+        # nothing to harvest)
         return self._candidates_from_restrictions(
-            cat_restrict, pkg_restrict, restrict.negate, sorter
+            cat_restrict, pkg_restrict, getattr(restrict, "negate", False), sorter
         )
 
     def _candidates_from_restrictions(self, cat_restrict, pkg_restrict, negate, sorter):
